@@ -90,7 +90,8 @@ pub fn check_walk(
         g.get(m).is_some_and(|m| {
           // (through an edge the walk follows under this graph kind)
           let code = o.kind != GraphKind::TypesOnly;
-          let types = o.kind != GraphKind::CodeOnly;
+          // (the types side of an import is only reported in place where types are checked)
+          let types = o.kind != GraphKind::CodeOnly && is_checkable(o, m.specifier(), m.media_type());
           m.dependencies().values().any(|d| {
             (code && d.get_code().is_some_and(|t| g.resolve(t) == u)) || (types && d.get_type().is_some_and(|t| g.resolve(t) == u))
           })
